@@ -8,7 +8,7 @@ Line-protocol driver for C02.  The SAME op file is read by the native C driver
     ringset <v>                              globalNextLpmIndex := v
     prog <n> {<type>:<not>:<outbound>:<must>:<mark>:<payload>}*n      b.compiledRules (typed)
     tries <T> {<n> prefix*n}*T               b.simulatedLpmTries
-    reserve <count>                          reserveLpmRingSlots            -> start=<s> | err
+    reserve <count> <real start>             reserveLpmRingSlots            -> ok [ring-model-predicted=<s>]
     lpm <trieIdx> <slot> <nk> {<plen>:<32hex>}*nk   real cidrToBpfLpmKey bytes -> ok | enc-differs
     lpmdel <slot>
     rules <n> {<48hex>}*n                    real rewriteKernRules… images   -> ok | enc-differs
@@ -137,13 +137,17 @@ def step (st : St) (line : String) : St × String :=
       | some tr => ({ st with tries := tr }, "ok")
       | none => (st, "bad-op")
     | none => (st, "bad-op")
-  | ["reserve", c] =>
-    match c.toNat? with
-    | some c =>
+  | ["reserve", c, real] =>
+    -- the real start slot is an INPUT (the theorems hold for every start); the model's own ring
+    -- counter is reported so that the check can tell whether `reserveRing` still mirrors the code
+    match c.toNat?, real.toNat? with
+    | some c, some real =>
       match reserveRing st.ring c with
-      | some (s, nxt) => ({ st with ring := nxt, start := s, count := c }, s!"start={s}")
-      | none => (st, "err")
-    | none => (st, "bad-op")
+      | some (s, nxt) =>
+        ({ st with ring := (if s = real then nxt else (real + c) % MaxMatchSetLen), start := real, count := c },
+          if s = real then "ok" else s!"ok ring-model-predicted={s}")
+      | none => ({ st with start := real, count := c }, "ok ring-model-predicted=err")
+    | _, _ => (st, "bad-op")
   | "lpm" :: i :: slot :: nk :: ks =>
     match i.toNat?, slot.toNat?, nk.toNat?, ks.mapM parseKey? with
     | some i, some slot, some nk, some keys =>
